@@ -816,7 +816,7 @@ META = {
                       'RemoveUser write error (faults jobs)', 'finished/unfinished per transfer and cycle (cycles harness)'],
     'bounds': {
         'quick': {'one_user_all_fine': 'every sequence of 1..3 calls, every call after the first at every loop step / timer instant',
-                  'one_user_coarse_prefix': '4 calls: 3 fixed coarse prefixes + last call fine; 5 calls as burst and strictly sequential',
+                  'one_user_coarse_prefix': '4 calls: 2 fixed coarse prefixes + last call fine; 5 calls as burst and strictly sequential',
                   'disconnect': 'one disconnect + reconnect + track-again tail: sequences of 2 all fine x 7 close reasons; sequences of 3: all fine '
                                 'x 1 rotating reason, [now, coarse, fine] x REQUESTED, [now, coarse, coarse] x all 7; after a burst of 3 calls: '
                                 'fine x {REQUESTED, EOF}, idle x all 7',
@@ -824,13 +824,13 @@ META = {
                   'failed_attempts': '<= 1 per scenario (2 in faults jobs), then the server confirms',
                   'faults': 'RemoveUser write errors, suspending listener: 2 calls fine, 3 calls coarse+fine',
                   'answer_delay': '0.25 s', 'transfer_cycles': '2 cycles x 3 transfers x 2 users, 2 direct calls'},
-        'thorough': {'one_user_all_fine': 'every sequence of 1..4 calls (<= 3 calls with up to 2 failed attempts)',
-                     'one_user_coarse_prefix': '5 calls [now, now|settled, coarse, coarse, fine]; 6 calls: 4 fixed prefixes + fine; 5..8 calls burst / sequential',
-                     'disconnect': 'sequences <= 3 all fine x each of the 7 close reasons; sequences of 4 all fine x 1 rotating reason (+ REQUESTED '
+        'thorough': {'one_user_all_fine': 'every sequence of 1..3 calls with up to 2 failed attempts; 4 calls [now, coarse, fine, fine]',
+                     'one_user_coarse_prefix': '5 calls [now, now|settled, coarse, coarse, fine]; 6 calls: 2 fixed prefixes + fine; 5..8 calls burst / sequential',
+                     'disconnect': 'sequences <= 3 all fine x each of the 7 close reasons; sequences of 4 [now, coarse, coarse, fine] x 1 rotating reason (+ REQUESTED '
                                    'when the disconnect is last) and all coarse x all 7; always with the track-again tail',
                      'two_users': '3 calls all fine; 4 calls [now, now|all-done, coarse, fine]',
                      'failed_attempts': '<= 1 (2 for <= 3 calls, 3 in faults jobs), then the server confirms',
-                     'faults': 'RemoveUser write errors, suspending listener: 3 calls all fine',
+                     'faults': 'RemoveUser write errors, suspending listener: 3 calls all fine; 3 failed attempts on 2 calls fine and 3 calls coarse+fine',
                      'answer_delay': '0.25 s', 'transfer_cycles': '3 cycles, 3 direct calls; 2 cycles with coarse timing'}},
     'outside': ['calls with an empty flag (TrackingFlag(0) is the worker\'s internal retry marker; the public API default is REQUESTED)',
                 'calls issued while the close of the server connection is being dispatched (the disconnect is atomic in the harness)',
@@ -868,9 +868,12 @@ def jobs(tier):
     F, C = 'fine', 'coarse'
     quick = tier == 'quick'
     # A: every call sequence of one user, every call after the first at every loop step
-    for n in (1, 2, 3) if quick else (1, 2, 3, 4):
+    for n in (1, 2, 3):
         for s in _seqs(n):
-            out.append(_job('calls', s, ['now'] + [F] * (n - 1), max_fail=1 if quick or n == 4 else 2))
+            out.append(_job('calls', s, ['now'] + [F] * (n - 1), max_fail=1 if quick else 2))
+    if not quick:
+        for s in _seqs(4):
+            out.append(_job('calls', s, ['now', C, F, F]))
     # B: one server disconnect (+ reconnect) anywhere in it, for every close reason the connection code can
     # report; afterwards every user is tracked again on the new connection
 
@@ -899,9 +902,9 @@ def jobs(tier):
                 out.append(dis(s, ['now', F, F], [r]))
         for k, s in enumerate(_seqs(4, with_d=True)):
             r = ALL_REASONS[(k + 2) % len(ALL_REASONS)]          # every step: one reason per sequence, rotating
-            out.append(dis(s, ['now', F, F, F], [r]))
+            out.append(dis(s, ['now', C, C, F], [r]))
             if s[-1] == 'd' and r != 'REQUESTED':
-                out.append(dis(s, ['now', F, F, F], ['REQUESTED']))
+                out.append(dis(s, ['now', C, C, F], ['REQUESTED']))
             out.append(dis(s, ['now', C, C, C], ALL_REASONS))  # every reason (chosen on the path), coarse timing
     # C: two users
     for s in _seqs(3, nusers=2):
@@ -916,14 +919,12 @@ def jobs(tier):
             for pre in (['now', 'now'], ['settle', 'quiet']):
                 out.append(_job('history', s, ['now'] + pre + [F]))
     else:
-        for s in _seqs(5):
-            for a in ('now', 'settle'):
-                out.append(_job('history', s, ['now', a, C, C, F]))
-        for s in _seqs(4, nusers=2):
-            for a in ('now', 'all'):
-                out.append(_job('history', s, ['now', a, C, F]))
+        for k, s in enumerate(_seqs(5)):
+            out.append(_job('history', s, ['now', ('now', 'settle')[k % 2], C, C, F]))
+        for k, s in enumerate(_seqs(4, nusers=2)):
+            out.append(_job('history', s, ['now', ('now', 'all')[k % 2], C, F]))
         for s in _seqs(6):
-            for pre in (['now'] * 4, ['all'] * 4, ['settle', 'quiet', 'all', 'now'], ['quiet', 'all', 'now', 'settle']):
+            for pre in (['now'] * 4, ['settle', 'quiet', 'all', 'now']):
                 out.append(_job('history', s, ['now'] + pre + [F]))
     # E: long bursts / strictly sequential histories
     for n in (5,) if quick else (5, 6, 7, 8):
@@ -935,7 +936,7 @@ def jobs(tier):
         out.append(_job('faults', s, ['now', F], max_fail=2 if quick else 3))
         out.append(_job('faults', s, ['now', F], rm_fail=True))
         out.append(_job('faults', s, ['now', F], slow=True))
-    for s in (['t0', 'u0', 't0'], ['t0', 't0', 'u0']) if quick else _seqs(3):
+    for s in (['t0', 'u0', 't0'], ['t0', 't0', 'u0']):
         out.append(_job('faults', s, ['now', 'settle', F] if quick else ['now', C, F], max_fail=2 if quick else 3))
         out.append(_job('faults', s, ['now', C, F] if quick else ['now', F, F], rm_fail=True))
         out.append(_job('faults', s, ['now', C, F] if quick else ['now', F, F], slow=True))
